@@ -518,6 +518,13 @@ fn inject(rng: &mut Rng, src: &str) -> Vec<(&'static str, String, u32, u8)> {
     v.push(("duplicated worklet: attribute", insert_at(rng, "<view worklet:w=\"f\" worklet:w=\"g\"/>"), code(K::DuplicatedAttribute), 2));
     v.push(("duplicated wx:for-item", insert_at(rng, "<view wx:for=\"{{ l }}\" wx:for-item=\"p\" wx:for-item=\"q\">{{ p }}</view>"), code(K::DuplicatedAttribute), 2));
     v.push(("duplicated wx:key", insert_at(rng, "<view wx:for=\"{{ l }}\" wx:key=\"a\" wx:key=\"b\">{{ item }}</view>"), code(K::DuplicatedAttribute), 2));
+    // a known prefix in front of one more segment; a plain attribute that repeats a model: binding
+    v.push(("unknown segment after wx:", insert_at(rng, "<view wx:bogus:if=\"{{a}}\"/>"), code(K::InvalidAttributePrefix), 2));
+    v.push(("unknown segment after bind:", insert_at(rng, "<view bind:nope:tap=\"f\"/>"), code(K::InvalidAttributePrefix), 2));
+    v.push(("unknown segment after mark:", insert_at(rng, "<view mark:x:id=\"1\"/>"), code(K::InvalidAttributePrefix), 2));
+    v.push(("unknown segment after model:", insert_at(rng, "<view model:two:value=\"{{ a }}\"/>"), code(K::InvalidAttributePrefix), 2));
+    v.push(("plain attribute repeating a model: binding", insert_at(rng, "<input model:value=\"{{ a }}\" value=\"x\"/>"), code(K::DuplicatedAttribute), 2));
+    v.push(("model: binding repeating a plain attribute", insert_at(rng, "<input checked model:checked=\"{{ a }}\"/>"), code(K::DuplicatedAttribute), 2));
     // a binding in a value that must be static, after text whose UTF-8 and UTF-16 lengths differ or after a line break (the
     // location of the note must still be a location of the source)
     v.push(("binding in wx:key after non-ASCII text", insert_at(rng, "<view wx:for=\"{{ l }}\" wx:key=\"\u{65e5}\u{672c}\u{8a9e}\u{30ad}\u{30fc}{{ id }}\">{{ item }}</view>"), code(K::DataBindingNotAllowed), 1));
